@@ -4,6 +4,7 @@ import Rpki.Model.AsDer
 import Rpki.Model.IpDer
 import Rpki.Model.ResText
 import Rpki.Model.ProvMsg
+import Rpki.Model.ResSetOps
 namespace Driver.C03
 open Driver Rpki.Chain
 
@@ -199,6 +200,68 @@ def handle (toks : List String) (impl : String) : Verdict :=
       oracle := if impl.startsWith "ok-inverted" then some "text with lower bound above upper bound accepted"
                 else if impl.startsWith "ok " then checkSet M128 ipTag (impl.drop 3).toString [] (fun x => (parseTagged (impl.drop 3).toString).any (fun tb => memb (tb.map (·.1)) x))
                 else none }
+  | ["rset", op, aa, a4, a6, ba, b4, b6] =>
+    match parseBlocks aa, parseBlocks a4, parseBlocks a6, parseBlocks ba, parseBlocks b4, parseBlocks b6 with
+    | some aa0, some a40, some a60, some ba0, some b40, some b60 =>
+      let a : Rpki.ProvMsg.ResSet := ⟨fromIter M32 aa0, fromIter M128 a40, fromIter M128 a60⟩
+      let b : Rpki.ProvMsg.ResSet := ⟨fromIter M32 ba0, fromIter M128 b40, fromIter M128 b60⟩
+      let show3 (s : Rpki.ProvMsg.ResSet) : String := s!"{showChain asTag s.asn};{showChain ipTag s.v4};{showChain ipTag s.v6}"
+      -- the three families of an implementation result against three predicates on the mathematical sets
+      let check3 (impl : String) (fa f4 f6 : Nat → Bool) : Option String :=
+        match impl.splitOn ";" with
+        | [ra, r4, r6] =>
+          (checkSet M32 asTag ra [aa0, ba0] fa).orElse fun _ =>
+          (checkSet M128 ipTag r4 [a40, b40] f4).orElse fun _ => checkSet M128 ipTag r6 [a60, b60] f6
+        | _ => some "unreadable resource set"
+      let sameSets : Bool := (probes M32 [aa0, ba0]).all (fun x => memb aa0 x == memb ba0 x) &&
+        (probes M128 [a40, b40]).all (fun x => memb a40 x == memb b40 x) && (probes M128 [a60, b60]).all (fun x => memb a60 x == memb b60 x)
+      let subset (M : Nat) (x y : List Blk) : Bool := (probes M [x, y]).all (fun p => !memb x p || memb y p)
+      if op = "union" then
+        { model := some (show3 (Rpki.ResSetOps.union a b)),
+          oracle := check3 impl (fun x => memb aa0 x || memb ba0 x) (fun x => memb a40 x || memb b40 x) (fun x => memb a60 x || memb b60 x) }
+      else if op = "inter" then
+        { model := some (show3 (Rpki.ResSetOps.inter a b)),
+          oracle := check3 impl (fun x => memb aa0 x && memb ba0 x) (fun x => memb a40 x && memb b40 x) (fun x => memb a60 x && memb b60 x) }
+      else if op = "contains" then
+        { model := some (showBool (Rpki.ResSetOps.contains a b)),
+          oracle := if impl = showBool (subset M32 ba0 aa0 && subset M128 b40 a40 && subset M128 b60 a60) then none
+                    else some "ResourceSet::contains differs from inclusion in every family" }
+      else if op = "eq" then
+        { model := some (showBool (a == b)),
+          oracle := if impl = showBool sameSets then none else some "ResourceSet == differs from equality of the denoted sets" }
+      else if op = "diff" then
+        let d := Rpki.ResSetOps.diff a b
+        { model := some s!"{show3 d.1}|{show3 d.2}|{showBool (Rpki.ResSetOps.diffIsEmpty d)}|{toHex ((Rpki.ResSetOps.diffDisplay d).map UInt8.ofNat)}",
+          oracle := match impl.splitOn "|" with
+            | [ad, rm, em, _] =>
+              (check3 ad (fun x => memb aa0 x && !memb ba0 x) (fun x => memb a40 x && !memb b40 x) (fun x => memb a60 x && !memb b60 x)).orElse fun _ =>
+              (check3 rm (fun x => memb ba0 x && !memb aa0 x) (fun x => memb b40 x && !memb a40 x) (fun x => memb b60 x && !memb a60 x)).orElse fun _ =>
+              if em = showBool sameSets then none else some "ResourceDiff::is_empty differs from equality of the two sets"
+            | _ => some "unreadable difference" }
+      else if op = "text" then
+        let flags := s!"{showBool (Rpki.ResSetOps.isEmpty a)} {showBool (!a.asn.isEmpty)}{showBool (!a.v4.isEmpty)}{showBool (!a.v6.isEmpty)}"
+        { model := some s!"{toHex ((Rpki.ResSetOps.display a).map UInt8.ofNat)} rt-same serde-same {flags}",
+          oracle := match impl.splitOn " " with
+            | [_, rt, sj, _, _] => if rt ≠ "rt-same" then some s!"the text forms of a resource set do not parse back to it ({rt})"
+                                else if sj ≠ "serde-same" then some s!"the serde form of a resource set does not parse back to it ({sj})" else none
+            | _ => some "unreadable" }
+      else badOp "unknown rset op"
+    | _, _, _, _, _, _ => badOp "blocks"
+  | ["rset-has", aa, a4, a6, what, x, y] =>
+    match parseBlocks aa, parseBlocks a4, parseBlocks a6, x.toNat?, y.toNat? with
+    | some aa0, some a40, some a60, some x, some y =>
+      let a : Rpki.ProvMsg.ResSet := ⟨fromIter M32 aa0, fromIter M128 a40, fromIter M128 a60⟩
+      if what = "asn" then
+        { model := some (showBool (Rpki.ResSetOps.containsAsn a x)),
+          oracle := if impl = showBool (memb aa0 x) then none else some "contains_asn differs from membership" }
+      else if what = "roa" then
+        -- x = first address (aligned), y = prefix length in the 128-bit space
+        let hi := x + 2 ^ (128 - y) - 1
+        { model := some (showBool (Rpki.ResSetOps.containsRoa a x hi)),
+          oracle := if impl = "true" ∧ !((probes M128 [[⟨x, hi⟩], a40, a60]).all fun p => !(x ≤ p && p ≤ hi) || memb a40 p || memb a60 p)
+                    then some "a ROA address reported as contained has addresses outside both address sets" else none }
+      else badOp "unknown rset-has"
+    | _, _, _, _, _ => badOp "args"
   | ["as-has", a, x] =>
     match parseBlocks a, x.toNat? with
     | some a, some x =>
